@@ -184,7 +184,7 @@ def render(files, inc, base=None, late=None, vary_case=False):
     if base is not None and not has_dotset:
         if late is None:
             link_at = ["start", "end", "start", "end", "omit"][h % 5] if base == 512 else ["start", "end"][h % 2]
-        elif late == "mid":
+        elif late in ("mid", "midsym"):
             link_at = "mid"                        # between two top-level statements of the first file (ahead of its '.end')
         elif late:
             link_at = ["end", "omit"][h % 2] if base == 512 else "end"
@@ -229,15 +229,22 @@ def render(files, inc, base=None, late=None, vary_case=False):
         if i == 0 and base is not None and link_at == "start":
             lines.append("\t.link %o" % base)
         mid = None
+        # "midsym": the base is written as a symbol that the first file defines at its end (so the directive cannot be computed
+        # when it is met); only when that end is reached, i.e. the file has no '.end'
+        symlink = (late == "midsym" and i == 0 and link_at == "mid" and not any(s["k"] == "end" for s in f))
         if i == 0 and link_at == "mid":
             stop = next((q for q, s in enumerate(f) if s["k"] == "end"), len(f))
             mid = (1 + h % stop) if stop else 0
             if mid == 0:
-                lines.append("\t.link %o" % base)
+                lines.append("\t.link %o" % base if not symlink else "\t.link hbase9")
         for q, s in enumerate(f):
             lines += stmt(s, inc_names)
             if mid is not None and q + 1 == mid:
-                lines.append("\t.link %o" % base)
+                lines.append("\t.link %o" % base if not symlink else "\t.link hbase9")
+            if symlink and s["k"] == "end":
+                symlink = False
+        if symlink:
+            lines.append("hbase9 = %o" % base)
         if i == len(files) - 1 and base is not None and link_at == "end":
             lines.append("\t.link %o" % base)
         text = "\n".join(lines) + "\n"
@@ -280,6 +287,8 @@ def replay(task):
             places = [False, True] if (run["ok"] and rec["own"] != "err" and opts.get("both_link_places", True)) else [None]
             if len(places) == 2 and opts.get("mid_link"):
                 places.append("mid")
+                if not opts.get("check_syms", True):
+                    places.append("midsym")        # adds a symbol of its own: only where the listing is not compared
             for late in places:
                 variants.append((run, run["base"], late))
         else:
